@@ -100,8 +100,9 @@ def make_rod(e):
     return rod
 
 
-def make_rod_grid(kind, rod, e):
-    """The grid is built while the rod is in ANOTHER state (shrunk radii with the same ratios, shifted nodes, other directors and
+def make_rod_grid(kind, rod, e, dim2=False):
+    """dim2: the 2-D variant (grid_dim=2) of the nodal / element-centric grids.
+    The grid is built while the rod is in ANOTHER state (shrunk radii with the same ratios, shifted nodes, other directors and
     velocities); the case's state is loaded afterwards.  Anything a grid caches at construction instead of reading from the
     rod at refresh time is therefore stale when the fields are computed."""
     keep = {k: getattr(rod, k).copy() for k in ("position_collection", "velocity_collection", "director_collection", "omega_collection", "radius", "tangents", "lengths")}
@@ -110,19 +111,19 @@ def make_rod_grid(kind, rod, e):
     rod.velocity_collection[...] = -keep["velocity_collection"] + 1.0
     rod.omega_collection[...] = 0.5 * keep["omega_collection"] - 1.0
     rod.director_collection[...] = keep["director_collection"][[1, 2, 0]]      # another proper rotation (cyclic row permutation)
-    grid, D = _make_rod_grid(kind, rod, e)
+    grid, D = _make_rod_grid(kind, rod, e, dim2)
     for k, v in keep.items():
         getattr(rod, k)[...] = v
     return grid, D
 
 
-def _make_rod_grid(kind, rod, e):
+def _make_rod_grid(kind, rod, e, dim2=False):
     import sopht.simulator as sps
 
     if kind == "rod_elem":
-        return sps.CosseratRodElementCentricForcingGrid(grid_dim=3, cosserat_rod=rod), 3
+        return sps.CosseratRodElementCentricForcingGrid(grid_dim=2 if dim2 else 3, cosserat_rod=rod), (2 if dim2 else 3)
     if kind == "rod_nodal":
-        return sps.CosseratRodNodalForcingGrid(grid_dim=3, cosserat_rod=rod), 3
+        return sps.CosseratRodNodalForcingGrid(grid_dim=2 if dim2 else 3, cosserat_rod=rod), (2 if dim2 else 3)
     if kind == "rod_edge":
         return sps.CosseratRodEdgeForcingGrid(grid_dim=2, cosserat_rod=rod), 2
     return sps.CosseratRodSurfaceForcingGrid(grid_dim=3, cosserat_rod=rod, surface_grid_density_for_largest_element=4,
